@@ -1977,6 +1977,9 @@ func RunFrame(frame *py.Frame) (res py.Object, err error) {
 	if vm.why != whyReturn {
 		vm.retval = nil
 	}
+	// The frame is finished however it got here (a return can come
+	// out of a finally block which yielded in the meantime)
+	frame.Yielded = false
 	if vm.retval == nil && !vm.curexc.IsSet() {
 		panic("vm: no result or exception")
 	}
